@@ -322,20 +322,10 @@ class Check(core.PropertyCheck):
         "regular mode, HTTP/1 on both sides, plain http; CONNECT, upgrades, HTTP/2/3 are not exercised",
     )
     PROCS = 1
-    fix_upstream = False
-
-    PROBE = [["ClientHead", "post"], ["HookDone", "stream"], ["OpenDone", "ok"], ["ServerHead", "eof"],
-             ["HookDone", "stream"], ["ClientFin", ""], ["ServerEcho", ""], ["HookDone", "pass"]]
-
-    def setup(self, ctx):
-        """Which variant of the named deviation FixUpstream does this tree have?  (Selects the model constant only:
-        verdicts always come from the monitor judging observed traces.)  The probe is the shortest behaviour on
-        which the two variants differ: with the deviation a queued server event is still processed after the error
-        hook of a client error that was forwarded upstream."""
-        tr = run_ops(self.PROBE)
-        hooks = [e["name"] for e in tr if e["k"] == "hook"]
-        self.fix_upstream = not ("error" in hooks and "response" in hooks[hooks.index("error"):])
-        ctx.notes["code_variant"] = {"FixUpstream": self.fix_upstream}
+    # Named deviation of HttpFlow.tla.  TRUE = the code after commit 3a57873aa (handle_protocol_error also sets
+    # server_state = errored when it forwards a client error upstream); FALSE = the code as first found
+    # (findings_proposed/C03.md), kept so that the pre-repair model can show the clause is reachable.
+    fix_upstream = True
 
     def mon_constants(self, tier):
         return {}
@@ -362,10 +352,8 @@ class Check(core.PropertyCheck):
         return [small, big] + self._prefix_run(ctx)
 
     def _prefix_run(self, ctx):
-        """On a repaired tree: the model of the code as found (FixUpstream = FALSE) must still reach the clause, i.e.
-        the monitor is not vacuous with respect to the defect that was repaired."""
-        if not self.fix_upstream:
-            return []
+        """The model of the code as found (FixUpstream = FALSE) must still reach the clause, i.e. the monitor is not
+        vacuous with respect to the defect that was repaired."""
         pre = ctx.model_check(self.MODEL, self.model_constants("quick") | {"FixUpstream": False}, dump=False,
                               tag="_prefix")
         if ["C03.response_and_error", "response_after_error"] not in pre.bad:
